@@ -69,6 +69,15 @@ impl RecorderOnceCell {
     }
 }
 
+#[cfg(metrics_verif)]
+impl RecorderOnceCell {
+    /// Only called between simulated runs, when no other thread uses the cell.
+    pub(crate) fn __verif_reset(&self) {
+        unsafe { self.recorder.get().write(None) };
+        self.state.store(UNINITIALIZED, Ordering::SeqCst);
+    }
+}
+
 // SAFETY: We can only mutate through `set`, which is protected by the `state` and unsafe
 // function where the caller has to guarantee synced-ness.
 unsafe impl Send for RecorderOnceCell {}
